@@ -49,7 +49,10 @@ def make_target(kind, policy, entropy="os"):
            "lenient_session": policy.get("lenient", False), "fo_refuse": tuple(policy.get("fo_refuse", (0x01, [0x0109]))),
            # connections opened by Forward Open live until Forward Close (or a time-out): un-registering the session does not free them
            "unregister_keeps_connections": True,
-           "conn_ids": [0xC0DE0001, 0xC0DE0002, 0xC0DE0003]}
+           "conn_ids": policy.get("conn_ids", [0xC0DE0001, 0xC0DE0002, 0xC0DE0003])}
+    if policy.get("fw") is not None:
+        # what the controller reports about itself must not change the Forward Open order / sizes
+        cfg["identity"] = {"major": policy["fw"], "minor": 11, "product_name": policy.get("product", "1756-L83E/B")}
     if kind == "logix":
         mem = {"/d": (123456789).to_bytes(4, "little"), "/arr": bytes(range(10)), "/big": bytes((i * 3) & 0xFF for i in range(600))}
         return RefPLC(PROJECT, mem, cfg)
@@ -325,6 +328,12 @@ def cases(draw):
                                    {"session": "refuse", "refuse_handle": 0x1234, "refuse_status": 0x69}, {"session": "refuse", "refuse_handle": 0xFFFFFFFF}, {"session": "refuse", "refuse_handle": 0x4321, "lenient": True},
                                    {"session": "refuse", "lenient": True}]))
     policy = dict(policy, handle=draw(st.sampled_from([1, 0x5EED0001, 0xFFFFFFFF])))
+    if draw(st.booleans()):
+        policy["fw"] = draw(st.sampled_from([12, 16, 17, 18, 19, 20, 21, 24, 32, 35]))
+        if draw(st.integers(0, 4)) == 0:
+            policy["product"] = "2080-LC50-48QWB"
+    if draw(st.integers(0, 3)) == 0:
+        policy["conn_ids"] = draw(st.sampled_from([[0, 1, 2], [0xFFFFFFFF, 0, 7], [1, 1, 1]]))
     if policy.get("fo") in ("std", "none"):
         from ..refplc import CM_EXT_CODES
         policy["fo_refuse"] = draw(st.one_of(st.sampled_from(CM_EXT_CODES).map(lambda c: [0x01, [c]]), st.sampled_from([[0x08, []], [0x05, []], [0x02, []], [0x01, []]]),
